@@ -871,7 +871,9 @@ Qed.
 Lemma dedup_length_perm l l' : Permutation l l' -> List.length (dedup l) = List.length (dedup l').
 Proof.
   intros Hp. apply Permutation_length. apply NoDup_Permutation; try apply dedup_NoDup.
-  intros x. rewrite !dedup_In. split; intros H; eapply Permutation_in; try apply Permutation_sym; eauto.
+  intros x. rewrite !dedup_In. split; intros H.
+  - exact (Permutation_in _ Hp H).
+  - exact (Permutation_in _ (Permutation_sym Hp) H).
 Qed.
 
 Lemma rewrite_loop_mem ins ins' : (forall o, str_mem o ins = str_mem o ins') ->
